@@ -236,6 +236,7 @@ PIN_SCRIPTS = {
     "sensor-read-inside-call-arguments-and-conditions": "pot = Potentiometer('A1')\ndef twice(x):\n    return x * 2\nwhile True:\n    a = twice(pot.read())\n    if pot.read() > 100:\n        a = a + 1\n    b = max(pot.read(), 3)\n    sleep(5)\n",
     "chained-comparison-reads-the-sensor-once": "pot = Potentiometer('A2')\nwhile True:\n    hit = 0\n    if 100 < pot.read() < 900:\n        hit = 1\n    ok = 0 <= pot.read() + 1 <= 1024 < 2000\n    sleep(5)\n",
     "discarded-read-statement-is-still-a-conversion": "pot = Potentiometer('A3')\npot.read()\nwhile True:\n    pot.read()\n    v = pot.read()\n    if v > 0:\n        pot.read()\n    sleep(5)\n",
+    "two-digit-analogue-pins": "a = Potentiometer('A10')\nb = Potentiometer(pin='A12')\nc = Potentiometer('A15')\nd = Potentiometer('A3')\nwhile True:\n    s = a.read() + b.read() + c.read() + d.read()\n    sleep(5)\n",
     "three-potentiometers-interleaved": "p = Potentiometer('A0')\nq = Potentiometer('A1')\nr = Potentiometer('A2')\nwhile True:\n    s = p.read() + q.read() + r.read()\n    t = r.read() - p.read()\n    sleep(5)\n",
 }
 
@@ -254,7 +255,7 @@ def _pin_one(job):
         return name, "does-not-compile", r.get("errors", "")[-300:], body
     fw = [e for e in r["events"] if e.startswith(("AR:", "PI:"))]
     host = []
-    APIN = {f"A{k}": 14 + k for k in range(8)}
+    APIN = {f"A{k}": 14 + k for k in range(16)}
 
     class Potentiometer:
         def __init__(self, pin="A0"):
